@@ -233,12 +233,14 @@ static void Range_New(var self, var args) {
 
 static void Range_Del(var self) {
   struct Range* r = self;
-  del(r->value);
+  if (r->value isnt NULL) { del(r->value); }
 }
 
 static void Range_Assign(var self, var obj) {
   struct Range* r = self;
   struct Range* o = cast(obj, Range);
+  /* a receiver that was only allocated (copy) has no cursor yet */
+  if (r->value is NULL) { r->value = new(Int); }
   assign(r->value, o->value);
   r->start = o->start;
   r->stop = o->stop;
@@ -521,13 +523,14 @@ static void Slice_New(var self, var args) {
 
 static void Slice_Del(var self) {
   struct Slice* s = self;
-  del(s->range);
+  if (s->range isnt NULL) { del(s->range); }
 }
 
 static void Slice_Assign(var self, var obj) {
   struct Slice* s = self;
   struct Slice* o = cast(obj, Slice);
   s->iter = o->iter;
+  if (s->range is NULL) { s->range = new(Range); }
   assign(s->range, o->range);
 }
 
@@ -738,13 +741,15 @@ static void Zip_New(var self, var args) {
 
 static void Zip_Del(var self) {
   struct Zip* z = self;
-  del(z->iters);
-  del(z->values);
+  if (z->iters  isnt NULL) { del(z->iters); }
+  if (z->values isnt NULL) { del(z->values); }
 }
 
 static void Zip_Assign(var self, var obj) {
   struct Zip* z = self;
   struct Zip* o = cast(obj, Zip);
+  if (z->iters  is NULL) { z->iters  = new(Tuple); }
+  if (z->values is NULL) { z->values = new(Tuple); }
   assign(z->iters, o->iters);
   assign(z->values, o->values);
 }
